@@ -57,7 +57,8 @@ WALL = {"quick": 600, "thorough": 3000}
 
 TARGETS = ("create_db", "backup_db_path", "initialize_lua", "add_empty_sandbox_lua_module", "add_page", "page_exists")
 KEYLINES = {
-    "create_db": [(".exists()", "bk.exists?"), (".unlink(", "db.unlink"), (".rename(", "bk.rename"), (".replace(", "bk.rename"),
+    "create_db": [("restore_lock = ", "restore.contend"), ("restore_lock.", "restore.lock"), ("sqlite3.connect(\n", "restore.contend"),
+                  (".exists()", "bk.exists?"), (".unlink(", "db.unlink"), (".rename(", "bk.rename"), (".replace(", "bk.rename"),
                   ("sqlite3.connect", "connect"), ("executescript", "schema+wal"), ("init_wikidata_cache(self)", "wikidata")],
     "add_empty_sandbox_lua_module": [("page_exists", "boot.exists?"), ("add_page", "boot.add"), ("commit", "boot.commit")],
 }
@@ -668,7 +669,8 @@ def _execute(case, obs, base):
 
     # ---- trace facts
     events.sort()
-    restorers = sorted({w for _, w, l in events if l in ("db.unlink", "bk.rename")})
+    # workers that entered (or, on trees that serialise the restore, contended for) the restore window
+    restorers = sorted({w for _, w, l in events if l in ("db.unlink", "bk.rename", "restore.contend")})
     raced = has_bk and len(restorers) >= 2
     crit = []
     rank = {}
